@@ -7,6 +7,7 @@
 #include <lp/lp.h>
 #include <lp/msg.h>
 #include <datatypes/msg_queue.h>
+#include <mm/msg_allocator.h>
 #include <pthread.h>
 #include <stdatomic.h>
 
@@ -63,6 +64,18 @@ int main(int argc, char **argv)
 	}
 	atomic_store(&stop, 1);
 	for(int i = 0; i < nprod; ++i) pthread_join(t[i], NULL);
+	/* shutdown with messages still pending in the shared list and in the heap, payloads on both sides of the 32-byte base size */
+	msg_allocator_init();
+	while(msg_queue_extract()) ;
+	for(int k = 0; k < 6; ++k) {
+		unsigned char pl[64] = {0};
+		struct lp_msg *m = msg_allocator_pack(0, 5.0 + k, 1, pl, k % 2 ? 40 : 8);
+		atomic_store_explicit(&m->flags, 0U, memory_order_relaxed);
+		msg_queue_insert(m);
+		if(k == 2) (void)msg_queue_time_peek();     /* the first three go to the heap, the rest stay in the list */
+	}
+	msg_queue_fini();
+	msg_allocator_fini();
 	printf("BADPEEK %ld\nLOST %ld\nDUP %ld\nOK\n", bad, lost, dup);
 	return 0;
 }
